@@ -13,7 +13,8 @@ import random
 from vf import evalgen as g
 from vf import tlc
 
-INPUTS = [[], [1], [0, 1], [2, 1, 0], [1, 1, 2], [1, None, 2], [3, 1, 2, 1], [0, 0], [2, 2, 1, 1, 0], [None], [[1, 2], [3]], [[1, 2], [1, 3], [2, 2]]]
+INPUTS = [[], [1], [0, 1], [2, 1, 0], [1, 1, 2], [1, None, 2], [3, 1, 2, 1], [0, 0], [2, 2, 1, 1, 0], [None], [[1, 2], [3]], [[1, 2], [1, 3], [2, 2]],
+          [None, None, 1, 1, None], [0, None, None, 0]]
 X = g.var('')
 PREDS = [g.bn('>', X, g.c(0)), g.bn('>', X, g.c(1)), g.bn('=', g.bn('mod', X, g.c(2)), g.c(0)), g.bn('=', X, g.c(None)), g.c(True), g.c(False)]
 SELS = [X, g.bn('+', X, g.c(1)), g.bn('mod', X, g.c(3)), g.lst(X, X), g.un('-', X), g.c(7)]
@@ -30,6 +31,9 @@ def ops_for(n):
     for p in PREDS:
         for f in ('where', 'takeWhile', 'skipWhile', 'any', 'all', 'indexWhere', 'lastIndexWhere', 'sliceWhere', 'splitWhere'):
             out.append((f, (p,)))
+    # slices are delimited by changes of the predicate's value, whatever it is (null included)
+    out.append(('sliceWhere', (X,)))
+    out.append(('sliceWhere', (g.bn('=', X, g.c(None)),)))
     for s in SELS:
         for f in ('select', 'selectMany', 'orderBy', 'orderByDescending', 'distinct', 'groupBy'):
             out.append((f, (s,)))
@@ -208,6 +212,11 @@ def run(rep, tier, seed, keep=False):
                    g.call('generateMany', g.c(1), g.mcall(g.lst(g.bn('+', X, g.c(1)), g.bn('+', X, g.c(2))), 'where', g.bn('<', X, g.c(5))), depthFirst=g.c(True)),
                    g.call('generateMany', g.c(1), g.mcall(g.lst(g.bn('+', X, g.c(1)), g.bn('+', X, g.c(2))), 'where', g.bn('<', X, g.c(5))), decycle=g.c(True)),
                    g.call('generateMany', g.c(1), g.mcall(g.lst(g.bn('+', X, g.c(1))), 'where', g.bn('<', X, g.c(4))), g.bn('*', X, g.c(10))),
+                   # flatten descends into every nested collection, lists and lazily produced ones alike
+                   g.mcall(g.lst(g.c(0), g.call('range', g.c(1), g.c(3)), g.lst(g.lst(g.c(4)), g.c(5))), 'flatten'),
+                   g.mcall(g.lst(g.mcall(X, 'select', X), g.lst(g.c(9))), 'flatten'),
+                   g.mcall(g.lst(g.mcall(X, 'where', g.c(True)), g.lst(g.mcall(X, 'take', g.c(1)))), 'flatten'),
+                   g.mcall(g.mcall(g.lst(g.c(2), g.c(3)), 'select', g.lst(X, g.call('range', X))), 'flatten'),
                    g.call('len', X), g.call('distinct', X), g.call('enumerate', X), g.call('isList', X), g.call('isDict', X), g.call('any', X)):
             for inp in INPUTS[:6]:
                 add(fn, inp)
